@@ -8,7 +8,7 @@ PROP = {
     
         "Mps.C04Byz.honest_emissions", "Mps.C04Byz.honest_never_named_directly", "Mps.C04Byz.relayed_notice_chain", "Mps.C04Byz.primary_names_only_x", "Mps.C04Byz.honest_never_blamed", "Mps.C04Byz.abort_root_cause",
     ],
-    "generated": ["Mps.HandlerSrc.gen_handler_source_0", "Mps.HandlerSrc.gen_handler_source_1", "Mps.HandlerSrc.gen_handler_source_2", "Mps.HandlerSrc.gen_handler_source_3", "Mps.HandlerSrc.gen_handler_source_4", "Mps.HandlerSrc.gen_handler_source_5", "Mps.C04.gen_echo_before_verify"],
+    "generated": ["Mps.Src.SrcCmpKeygen.gen_source", "Mps.Src.SrcCmpSign.gen_source", "Mps.Src.SrcCmpPresign.gen_source", "Mps.Src.SrcFrostKeygen.gen_source", "Mps.Src.SrcFrostSign.gen_source", "Mps.HandlerSrc.gen_handler_source_0", "Mps.HandlerSrc.gen_handler_source_1", "Mps.HandlerSrc.gen_handler_source_2", "Mps.HandlerSrc.gen_handler_source_3", "Mps.HandlerSrc.gen_handler_source_4", "Mps.HandlerSrc.gen_handler_source_5", "Mps.C04.gen_echo_before_verify"],
     "suites": [{"name": "handler", "quick": 400, "thorough": 12000}, {"name": "sess-tamper", "quick": 45, "thorough": 900, "shards": 8}, {"name": "sess-presign-abort", "quick": 5, "thorough": 24}],
     "propfields": {"handler": ["term", "closed", "ok"], "sess-tamper": ["ok"], "sess-presign-abort": ["ok"]},
     "level_text": "Proof (handler level): for ALL scripts and ALL call histories, a Result() error that blames f for a failed message is backed by a message from f, stored for the round the handler is in, that violates the protocol in that round (wrong kind, undecodable, failing verification/storing) - blame_provenance; no message an honest handler of the script ever emits can be such a witness - honest_never_witness; an abort notice names exactly its sender - notice_names_its_sender. Culprit sets of every kind of error are compared with the real MultiHandler under generated single-cheater schedules (all cheater positions, tamper kinds, orders). System level, one Byzantine participant (Mps/Byz.lean, MpsProofs/Byz.lean): for every H, every session script, every cheater id and every Byzantine schedule an honest party's verdict is never a message failure of an honest party, never a protocol abort naming one, never its own Finalize failure or a stop; its culprit list contains an honest id only as the sender of a RELAYED notice of a party that has itself aborted (honest_never_blamed, honest_never_named_directly); every verdict is one's own naming nobody but the cheater, or none (echo mismatch), or such a relayed notice (relayed_notice_chain); whenever an honest party has aborted some honest party holds a verdict of its own that names only the cheater (abort_root_cause).",
